@@ -21,9 +21,10 @@
   `classify` is the template's dispatch (`resolvesToArray`, `typeHasEqualityFunc`, …), arranged so
   that it is also the dispatch of `goDecode` (lemma `goDecode_wt` in GoEqualsDecode.lean).
 
-  Outside the model (`Pos.unsup`): what `goDecode` does not model, plus nullable references to
-  array/map aliases (`*Alias`: the pointer is not represented in `GoVal`) and references to an
-  alias of `any` (`!=` on interfaces: run-time panic on maps/slices).
+  Outside the model (`Pos.unsup`): what `goDecode` does not model, plus references to an alias of
+  `any` (`!=` on interfaces: run-time panic on maps/slices).  A nullable reference to a named
+  array/map (`*Alias`) is `Pos.collPtr`: `goDecode` yields `.nil` for the nil pointer and the
+  collection itself for a non-nil one.
 -/
 import Cog.Sem.GoCodec
 namespace Cog.Sem.GoEq
@@ -38,6 +39,7 @@ inductive Pos where
   | struct (fields : List Field) (nullable : Bool)       -- nested `.Equals`
   | union (fields : List Field) (nullable : Bool)        -- `.Equals` of a disjunction struct
   | alias (t : Ty)                                       -- `type A = B`, constant reference
+  | collPtr (t : Ty)                                     -- `*Alias`, Alias a named array / map type
   | unsup (why : String)
   deriving Inhabited
 
@@ -53,8 +55,7 @@ def classifyRef (oty : Ty) (nullable : Bool) : Pos :=
     if kind = "bytes" then .unsup "bytes"
     else if kind = "any" then .unsup "reference to an alias of any"
     else .leaf kind (hasHint om dtHint) nullable
-  | .array .. | .map .. =>
-    if nullable then .unsup "nullable reference to a collection alias" else .alias oty
+  | .array .. | .map .. => if nullable then .collPtr oty else .alias oty
   | .ref p n om => .alias (.ref p n { om with nullable := nullable })
   | _ => .unsup "object kind"
 
@@ -186,6 +187,7 @@ def goZero : Nat → Schemas → Ty → GoVal
     | .struct fields nullable => if nullable then .nil else .struct (zeroFields (goZero fuel ss) fields)
     | .union fields nullable => if nullable then .nil else .union (nilBranches fields)
     | .alias t' => goZero fuel ss t'
+    | .collPtr _ => .nil
     | .unsup _ => .nil
 
 /-! ### Equals -/
@@ -216,6 +218,10 @@ def goEquals : Nat → Schemas → Ty → GoVal → GoVal → Bool
     | .struct fields nullable => ptrEq nullable (structEq (goEquals fuel ss) fields) a b
     | .union fields nullable => ptrEq nullable (unionEq (goEquals fuel ss) fields) a b
     | .alias t' => goEquals fuel ss t' a b
+    -- nullable reference to a named array / map (`*Alias`): `needsDereference` arm — nil-ness
+    -- test, then the collection loop on `*a`, `*b`.  In decoded values the nil pointer is `.nil`
+    -- and a non-nil pointer always points to a non-nil collection (`.slice` / `.gomap`).
+    | .collPtr t' => (a.isNil == b.isNil) && goEquals fuel ss t' a b
     | .unsup _ => false
 
 /-- is the position supported by the model at all (driver: `unsup`) -/
@@ -298,6 +304,7 @@ def wt : Nat → Schemas → Ty → GoVal → Bool
         | .union bs => wtBranches (wt fuel ss) fields bs && decide (liveBranches bs ≤ 1)
         | _ => false) v
     | .alias t' => wt fuel ss t' v
+    | .collPtr t' => wt fuel ss t' v
     | .unsup _ => false
 
 /-- driver aid: the reason of the first unsupported position a value reaches (`wt` is false there) -/
@@ -327,6 +334,7 @@ def whyUnsup : Nat → Schemas → Ty → GoVal → Option String
     | .union fields _ =>
       (match unptr v with | .union bs => whyBranches (whyUnsup fuel ss) fields bs | _ => none)
     | .alias t' => whyUnsup fuel ss t' v
+    | .collPtr t' => whyUnsup fuel ss t' v
     | _ => none
 
 /-! ### decidable side conditions of the `_partial` theorems -/
@@ -382,6 +390,7 @@ def mapsNonZero : Nat → Schemas → Ty → GoVal → Bool
       ptrAll nullable (fun x => match x with
         | .union bs => nzBranches (mapsNonZero fuel ss) fields bs | _ => true) v
     | .alias t' => mapsNonZero fuel ss t' v
+    | .collPtr t' => mapsNonZero fuel ss t' v
     | _ => true
 
 /-! ### encodings up to nil/empty collections -/
@@ -463,6 +472,9 @@ def unionsAligned : Nat → Schemas → Ty → GoVal → GoVal → Bool
         | .union ba, .union bb => alignedBranches (unionsAligned fuel ss) fields ba bb
         | _, _ => true) a b
     | .alias t' => unionsAligned fuel ss t' a b
+    -- (the codec model treats a `*Alias` pointing to an empty collection as `omitempty`-empty,
+    --  encoding/json does not: same nil-ness is part of the alignment)
+    | .collPtr t' => (a.isNil == b.isNil) && unionsAligned fuel ss t' a b
     | _ => true
 
 end Cog.Sem.GoEq
